@@ -1,5 +1,8 @@
 mod arrgen;
 mod c01;
+mod c02;
+mod probe;
+mod viewgen;
 mod c10;
 mod c11;
 mod c13;
@@ -41,6 +44,7 @@ fn main() {
     let mut ctx = ctx::Ctx::new(&prop, thorough, seed, out, only);
     match prop.as_str() {
         "C01" | "C03" => c01::run(&mut ctx),
+        "C02" | "C12" => c02::run(&mut ctx),
         "C10" => c10::run(&mut ctx),
         "C11" => c11::run(&mut ctx),
         "C13" => c13::run(&mut ctx),
